@@ -4,7 +4,7 @@ CONSTANTS
   ScenariosOf <- MCScenariosOf
   QuietWins = TRUE
   Cuts = 4
-  Fams = {"faults", "args", "pipe"}
+  Fams = {"faults", "args", "pipe", "pre"}
   MaxFiles = 3
   FaultKinds <- AllKinds
   NoMsgs <- Both
